@@ -2,6 +2,7 @@
 import faulthandler
 import importlib
 import json
+import os
 import sys
 
 from . import common, known
@@ -30,6 +31,21 @@ def main():
             last[0], last[1] = cur, 0
     signal.signal(signal.SIGALRM, tick)
     signal.setitimer(signal.ITIMER_REAL, 30, 30)
+    cov = None
+    if os.environ.get("VERIF_COV"):
+        # development aid (tools/coverage_report.py): which lines of the library the workload reached; one-shot LINE
+        # events (DISABLE after the first hit), so the cost is negligible.  Not used by the registered commands.
+        cov = set()
+        m = sys.monitoring
+        root = os.path.join(common.REPO, "html5lib") + os.sep
+
+        def _line(code, line):
+            if code.co_filename.startswith(root):
+                cov.add((code.co_filename[len(root):], line))
+            return m.DISABLE
+        m.use_tool_id(1, "vf-cov")
+        m.register_callback(1, m.events.LINE, _line)
+        m.set_events(1, m.events.LINE)
     try:
         common.import_repo()
         if ctx.i == 0:
@@ -48,6 +64,10 @@ def main():
         import traceback
         ctx.inconc("shard %d made no progress for 150 s (wall-clock watchdog): %s" % (ctx.i, traceback.format_exc(limit=-4)[-400:]))
     signal.setitimer(signal.ITIMER_REAL, 0)
+    if cov is not None:
+        os.makedirs(os.environ["VERIF_COV"], exist_ok=True)
+        with open(os.path.join(os.environ["VERIF_COV"], "%s-%s.json" % (prop, i)), "w") as f:
+            json.dump(sorted(cov), f)
     with open(out, "w") as f:
         json.dump(ctx.dump(), f)
 
